@@ -13,7 +13,7 @@ from vlib import VERIF, Evidence, Reporter, run_tlc, write_cfg, scratch, SEED, s
 PID = "C05"
 CHECKS = ["MetaSizeChecked", "InodeTypeChecked", "DirCountChecked", "NameSizeChecked", "FragIdxChecked", "FragBoundsChecked",
           "DiskSizeCheckedRead", "DiskSizeCheckedStream", "LoopCheckedTree", "LoopCheckedIter", "XattrIdxChecked", "IdIdxChecked",
-          "TableBoundsChecked"]
+          "TableBoundsChecked", "LongLinkBySize", "FragSumNoWrap"]
 BS = 4096
 
 
@@ -21,7 +21,10 @@ def base_tree(plan):
     data = bytes((i * 7) % 251 for i in range(2 * BS + 300))
     f = {"kind": "file", "name": b"f", "data": data, "mode": 0o644, "xattrs": {b"user.k": b"v"}, "uid": 3}
     g = {"kind": "file", "name": b"g", "data": b"small tail", "mode": 0o600}
-    sub = {"kind": "dir", "name": b"sub", "mode": 0o755, "children": [{"kind": "slink", "name": b"l", "target": b"../g"}], "id": "sub"}
+    lnk = {"kind": "slink", "name": b"l", "target": b"../g"}
+    # enough inode bytes behind the symlink for an oversized target to stay inside the table
+    pads = [{"kind": "file", "name": b"p%02d" % i, "data": b"", "mode": 0o600} for i in range(40)]
+    sub = {"kind": "dir", "name": b"sub", "mode": 0o755, "children": [lnk] + pads, "id": "sub"}
     d = {"kind": "dir", "name": b"d", "mode": 0o755, "children": [g, sub], "id": "d"}
     root = {"kind": "dir", "name": b"", "mode": 0o755, "children": [f, d], "id": "root"}
     so = {}
@@ -58,11 +61,17 @@ def base_tree(plan):
         f["o_frag"] = (99, 0)
     if plan["frag_off"] == "beyond":
         f["o_frag"] = (0, 4000)
+    elif plan["frag_off"] == "wrap":
+        f["o_frag"] = (0, 0xFFFFFFF0)
     if plan["xattr_idx"] == "outofrange":
         f["o_xattr_idx"] = 500
         f["ext"] = True
     if plan["id_idx"] == "outofrange":
         g["o_uid_idx"] = 999
+    if plan["slink_size"] == "beyond_string":
+        lnk["o_target_size"] = 600
+    elif plan["slink_size"] == "huge":
+        lnk["o_target_size"] = 0x00FFFFF0      # 16 MiB: allocation succeeds (also under ASan), the read runs off the inode table
     return root, so
 
 
@@ -81,11 +90,26 @@ def concretise(plan):
     if plan["dir_count"] == "over256":
         # first directory header of the directory table: count field
         struct.pack_into("<I", raw, sup["dir_tbl"] + 2, 5000)
-    return bytes(raw)
+    return bytes(raw), sorted(set(info["exports"].values()))
+
+
+def api_script(refs):
+    """every reader API call of harness/replay_readers.c on every inode reference of the image"""
+    ops = ["M 0 0 0 64", "M 0 0 8000 400", "M 1 0 0 64", "M 0 99999 0 8", "P f", "P d/g", "P d/sub/l", "P d/sub/zz/zz/zz"]
+    for r in refs:
+        ops += ["I %d" % r, "D %d" % r, "R %d 0 100000" % r, "R %d 4096 300" % r, "R %d 8200 5000" % r, "B %d 0" % r, "B %d 1" % r, "B %d 2" % r,
+                "B %d 99" % r, "F %d" % r, "S %d" % r]
+    ops += ["I 8190", "I 4294967295", "D 281474976710655"]
+    ops += ["X %d" % i for i in (0, 1, 2, 500, 4294967295)] + ["U %d" % i for i in (0, 1, 2, 999, 65535)]
+    return "\n".join(ops) + "\n"
+
+
+API_BIN = [None]
 
 
 def invocations(tools, img, outdir):
-    return [("list", [tools + "/rdsquashfs", "-l", "/", img]), ("describe", [tools + "/rdsquashfs", "-d", img]),
+    api = [("api", [API_BIN[0], img, img + ".ops"])] if API_BIN[0] and os.path.exists(img + ".ops") else []
+    return api + [("list", [tools + "/rdsquashfs", "-l", "/", img]), ("describe", [tools + "/rdsquashfs", "-d", img]),
             ("stat", [tools + "/rdsquashfs", "-s", "f", img]), ("cat", [tools + "/rdsquashfs", "-c", "f", img]),
             ("cat2", [tools + "/rdsquashfs", "-c", "d/g", img]), ("xattr", [tools + "/rdsquashfs", "-x", "f", img]),
             ("unpack", [tools + "/rdsquashfs", "-q", "-u", "/", "-p", outdir, img]), ("sqfs2tar", [tools + "/sqfs2tar", img]),
@@ -126,6 +150,10 @@ def run(tier):
     work = scratch("c05")
     tools = build.build("asan") + "/bin"
     rng = random.Random(SEED)
+    API_BIN[0] = work + "/replay_readers"
+    if not build.compile_harness(VERIF + "/harness/replay_readers.c", API_BIN[0], variant="asan"):
+        print("harness build failed")
+        return 2
     cfg = work + "/r.cfg"
     allc = {k: True for k in CHECKS}
     allc["Emit"] = False
@@ -138,8 +166,6 @@ def run(tier):
         return 2
     devres = {}
     for chk in CHECKS:
-        if chk == "DiskSizeCheckedRead":
-            continue
         c = dict(allc)
         c[chk] = False
         write_cfg(cfg, spec="Spec", constants=c, invariants=["Safe"], deadlock=False)
@@ -170,7 +196,9 @@ def run(tier):
     def do(i):
         p = sel[i]
         img = "%s/h%d.sqfs" % (work, i)
-        open(img, "wb").write(concretise(p["plan"]))
+        raw, refs = concretise(p["plan"])
+        open(img, "wb").write(raw)
+        open(img + ".ops", "w").write(api_script(refs))
         o = observe(tools, img, "%s/out%d" % (work, i))
         return i, o, img
 
@@ -195,6 +223,7 @@ def run(tier):
             if m.get("list") == "reject" and all(v == "ok" for v in o.values()):
                 drift.append(plan)
             os.unlink(img)
+            os.unlink(img + ".ops")
     ev.set("model_predicts_reject_but_all_tools_accept(tier B, informational)", drift[:10])
     # ---- seeded bit flips on real compressed images -------------------------------------------------------
     plain = build.build("plain") + "/bin"
@@ -221,6 +250,7 @@ def run(tier):
                 data[pos] = r2.choice([0, 0xFF, 0x80, 0x7F])
         p = "%s/flip%d.sqfs" % (work, i)
         open(p, "wb").write(data)
+        open(p + ".ops", "w").write(api_script(sorted((b << 16) | o for (b, o) in img.by_ref)[:40]))
         return i, observe(tools, p, "%s/fo%d" % (work, i)), p
 
     with ThreadPoolExecutor(max_workers=16) as ex:
